@@ -59,6 +59,9 @@ def check(repo: Repo, rep: Report) -> None:
                "and return its InnerSubscription, or replay exactly the recorded terminal notification and return an inert "
                "disposable")
     rep.require(n >= 2, "paths of Subject._subscribe_core")
+    term = {e.split(":")[0] for p in SC.subscribe_paths(sub, obs) if not p.exc and p.decided("self.is_stopped") for e in p.kinds}
+    rep.ob("B3-subscribe-branches", sub, "stopped branch can replay an error and a completion", {"ERR", "COMPL"} <= term,
+           "a subscriber arriving after termination is never told about the recorded error (or never about completion)")
     SC.rule_public_entry(rep, cls)
     SC.rule_dispose(rep, cls)
     # B6
